@@ -353,6 +353,7 @@ func (w *worker) flush(ps []*pending) {
 		pr    printing
 		edges []edge
 		cands int
+		refs  []string // clause "full": reference outcome of every smaller variant
 	}
 	var todos []*todo
 	var red []exprsem.Job
@@ -369,11 +370,25 @@ func (w *worker) flush(ps []*pending) {
 			cls = cls[:i]
 		}
 		w.out[cls]++
-		if full != norm(p.ref) {
-			w.fail(p, "full", printings[1], nil, nil)
-		}
-		if norm(p.outs["redundant"]) != full {
-			w.fail(p, "redundant", printings[2], nil, nil)
+		// parenthesised printings: reduced like the others, keyed by what stands inside the parentheses
+		for _, pc := range []struct {
+			pr  printing
+			bad bool
+		}{{printings[1], full != norm(p.ref)}, {printings[2], norm(p.outs["redundant"]) != full}} {
+			if !pc.bad {
+				continue
+			}
+			td := &todo{ci: ci, pr: pc.pr}
+			ti := len(todos)
+			for _, cand := range smaller(p.t, p.a) {
+				red = append(red, exprsem.Job{ID: fmt.Sprintf("%d|%d|v", ti, td.cands), Src: source(cand.t, cand.a, pc.pr)},
+					exprsem.Job{ID: fmt.Sprintf("%d|%d|f", ti, td.cands), Src: source(cand.t, cand.a, printings[1])})
+				if pc.pr.name == "full" {
+					td.refs = append(td.refs, refOutcome(w.ref, cand.t, cand.a))
+				}
+				td.cands++
+			}
+			todos = append(todos, td)
 		}
 		minOK := norm(p.outs["min"]) == full
 		for _, pr := range printings {
@@ -410,13 +425,21 @@ func (w *worker) flush(ps []*pending) {
 	for ti, td := range todos {
 		reduced := false
 		for k := 0; k < td.cands; k++ {
-			if norm(rout[fmt.Sprintf("%d|%d|v", ti, k)]) != norm(rout[fmt.Sprintf("%d|%d|f", ti, k)]) {
+			want := norm(rout[fmt.Sprintf("%d|%d|f", ti, k)])
+			if td.pr.name == "full" {
+				want = norm(td.refs[k])
+			}
+			if norm(rout[fmt.Sprintf("%d|%d|v", ti, k)]) != want {
 				reduced = true
 				break
 			}
 		}
 		if reduced {
 			w.explained++
+			continue
+		}
+		if td.pr.st.mode != "min" {
+			w.fail(ps[td.ci], td.pr.name, td.pr, nil, nil)
 			continue
 		}
 		minimal = append(minimal, ti)
@@ -592,7 +615,29 @@ func (w *worker) fail(p *pending, clause string, pr printing, culprits []edge, s
 	}
 	switch {
 	case clause == "full" || clause == "redundant":
-		key += "shape:" + p.t.sigText()
+		// minimal failing tree: the classes of the parenthesised sub-expressions (of the root if none)
+		set := map[string]bool{}
+		for _, k := range p.t.kids {
+			var walk func(x *node)
+			walk = func(x *node) {
+				if x.op != nil {
+					set[className(x.op)] = true
+					for _, c := range x.kids {
+						walk(c)
+					}
+				}
+			}
+			walk(k)
+		}
+		if len(set) == 0 && p.t.op != nil {
+			set[className(p.t.op)] = true
+		}
+		var cs []string
+		for c := range set {
+			cs = append(cs, c)
+		}
+		sort.Strings(cs)
+		key += "parenthesised:" + strings.Join(cs, "+")
 	case len(culprits) > 0:
 		key = findingKey(clause, culprits[0])
 	default:
